@@ -8,7 +8,8 @@
   `effective_stroke_color()`, nothing without a stroke colour or for width 0), so
   (a) "`draw()` = ONE `draw_iter` call of `pixels()`" is DEFINITIONAL at the model level (`rfl`): what
       carries it is the correspondence of the stream `thick.points` (the real `draw` on the recording
-      target is compared with the real `pixels()` per op: oracle class `thick-draw-eq-pixels`);
+      target is compared with the real `pixels()` per op: class `C01:tie-hypothesis:line-draw-is-one-draw_iter`,
+      a tie and not a clause of C01, whose oracle `C01:pixels-vs-draw:thick-line` compares pixel MAPS);
   (b) hence `draw()` on a draw_iter-only target, `draw()` on a native-fill target and
       `draw_iter(pixels())` leave the same map, for every line (zero length included), width, colour
       option and target box (no guard);
@@ -96,6 +97,6 @@ theorem styled_line_order_independent (l : Line) (w : Nat) (sc : Option Color) (
   exact ⟨(C01Thick.apply_clip_perm B hperm hn).symm, (C01Thick.apply_clip_perm B hperm hn).symm⟩
 example : (Thick.styledPixels ⟨⟨2, 2⟩, ⟨6, 4⟩⟩ 3 (some 7)).map (·.length) = some 19 := by decide
 
--- [V] styled line: that `draw()` issues the same single `draw_iter` call whatever the target type (Rust parametricity of `draw_styled` in `D: DrawTarget`), and that this call carries the sequence of `pixels()` (definitional in the model): carried by correspondence + oracle only (stream `thick.points`, class `thick-draw-eq-pixels`)
+-- [V] styled line: that `draw()` issues the same single `draw_iter` call whatever the target type (Rust parametricity of `draw_styled` in `D: DrawTarget`), and that this call carries the sequence of `pixels()` (definitional in the model): carried by correspondence + a validated tie only (stream `thick.points`, class `C01:tie-hypothesis:line-draw-is-one-draw_iter`; the property's own clause, equal pixel maps, is the oracle class `C01:pixels-vs-draw:thick-line`)
 
 end EG.C01.Line
